@@ -113,7 +113,14 @@ func Del() { delete(cache, 1) }
 func LocalOnly() int { t := []int{1}; t[0] = 2; var c int; c++; x := T{}; x.grow(); return t[0] + c }
 func Shadow() { counter := 1; counter++; _ = counter }
 func ParamOnly(b []int) { b[0] = 1 }
+type U struct { p *T; tab []int; n int }
+func MkShared() *U { return &U{p: sharedPtr} }
+func MkAddr() *U { return &U{p: &shared} }
+func SetTab(u *U) { u.tab = table }
+func CopyValue(u *U) { u.n = counter; u.p = &T{} }
 `
+
+var c18SelfWantEsc = []string{"p.MkAddr => p.shared", "p.MkShared => p.sharedPtr", "p.RangeAlias => p.sharedPtr", "p.SetTab => p.table"} // RangeAlias: a temporary slice literal counts (syntactic rule)
 
 var c18SelfWant = []string{
 	"p.AppendAssign -> p.table", "p.Alias -> p.table", "p.CopyInto -> p.table", "p.Del -> p.cache", "p.Direct -> p.counter",
@@ -139,6 +146,9 @@ func c18SelfTest() (bool, string) {
 	got := strings.Join(sc.Writes, "\n")
 	if got != strings.Join(want, "\n") {
 		return false, "scanner self-test: got\n" + got + "\nwant\n" + strings.Join(want, "\n")
+	}
+	if gotE := strings.Join(sc.Escapes, "\n"); gotE != strings.Join(c18SelfWantEsc, "\n") {
+		return false, "scanner self-test (escapes): got\n" + gotE + "\nwant\n" + strings.Join(c18SelfWantEsc, "\n")
 	}
 	return true, ""
 }
@@ -191,7 +201,7 @@ func runC18(c *Ctx) {
 	if ok, msg := c18SelfTest(); !ok {
 		c.Oracle("c18-scan", false, "c18-scanner-selftest-failed", "synthetic package", msg)
 	} else {
-		c.Oracle("c18-scan", true, "", "scanner self-test: 16 write forms found, 8 non-writes not reported", "")
+		c.Oracle("c18-scan", true, "", "scanner self-test: 16 write forms and 4 escape forms found, 9 non-writes/non-escapes not reported", "")
 	}
 	allowed, err := c18Allowed(filepath.Join(hdir, "..", "corpus", "C18", "allowed-shared-writes.txt"))
 	if err != nil {
@@ -229,6 +239,21 @@ func runC18(c *Ctx) {
 			}
 			if !found {
 				c.Remark("allow-list entry no longer present in the tree: " + k)
+			}
+		}
+		// escapes of references into package-level state into instances
+		allowedEsc, err2 := c18Allowed(filepath.Join(hdir, "..", "corpus", "C18", "allowed-global-escapes.txt"))
+		if err2 != nil {
+			c.Remark("escape allow-list unreadable: " + err2.Error())
+			allowedEsc = map[string]string{}
+		}
+		c.NoteN("scan:global-escapes", len(sc.Escapes))
+		for _, w := range sc.Escapes {
+			_, ok := allowedEsc[w]
+			c.Oracle("c18-scan", ok, "global-escape:"+strings.ReplaceAll(w, " ", ""), w,
+				"function stores a reference to package-level state into an object (instances then share that state) and is not in the reviewed allow-list")
+			if ok {
+				c.Note("scan:allowed-escape")
 			}
 		}
 		var viol []string
